@@ -744,7 +744,16 @@ func suiteC15(rng *Rng, thorough bool, s *Sink) {
 					w = 2
 				}
 				if val, err := fieldListValueVia(reg, leBytes(w, uint64(raw))); err == nil {
-					s.Line("render-after-name-lookups", fmt.Sprintf("FC %s %d mut:after-names-were-asked-for-undocumented-indices", fl.name, leU(leBytes(w, uint64(raw)))), hexS(val.CommaString()))
+					op := fmt.Sprintf("FC %s %d mut:after-names-were-asked-for-undocumented-indices", fl.name, leU(leBytes(w, uint64(raw))))
+					out := "PANIC"
+					func() {
+						defer func() { recover() }()
+						out = hexS(val.CommaString())
+					}()
+					s.Line("render-after-name-lookups", op, out)
+					if out == "PANIC" {
+						s.Violate(op, out, fmt.Sprintf("%s raw=0x%X: rendering the value panics", fl.name, raw))
+					}
 				}
 			}
 		}
